@@ -191,7 +191,6 @@ func c12Waits(p *Prog, r *Report, conds []condInfoT) {
 		for _, fi := range methods {
 			info := fi.Pkg.TypesInfo
 			lr := p.LockFlow(fi, nil)
-			f := p.FlatOf(fi)
 			recvName := ""
 			if len(fi.Decl.Recv.List[0].Names) == 1 {
 				recvName = fi.Decl.Recv.List[0].Names[0].Name
@@ -220,72 +219,26 @@ func c12Waits(p *Prog, r *Report, conds []condInfoT) {
 				r.Check(holdsMode(hs, lockPath, "W"), "C12.b", cons+"/under-lock", p.pos(ev.Call), "mutation of wait-predicate field "+fv.Name()+" under "+lockPath,
 					fmt.Sprintf("wait-predicate field %s is changed without %s (held %s): the change can fall between the waiter's test and its Wait, the wake-up is lost and Close blocks forever", fv.Name(), lockPath, heldString(hs)))
 				if growingMethods[sel.Sel.Name] {
-					// notification follows
-					var wnode int = -1
-					for _, n := range f.Nodes {
-						if n.Ast != nil && n.Ast.Pos() <= ev.Call.Pos() && ev.Call.End() <= n.Ast.End() {
-							if _, isDefer := n.Ast.(*ast.DeferStmt); !isDefer {
-								wnode = n.ID
-							}
-						}
-					}
-					isNotify := func(x ast.Node) bool {
-						found := false
-						ast.Inspect(x, func(y ast.Node) bool {
-							if c, ok := y.(*ast.CallExpr); ok {
-								if s, ok := c.Fun.(*ast.SelectorExpr); ok && (s.Sel.Name == "Signal" || s.Sel.Name == "Broadcast") {
-									if fn, ok := info.Uses[s.Sel].(*types.Func); ok && strings.HasPrefix(fkey(fn), "(*sync.Cond).") {
-										found = true
+					// notification follows: in this method, or - when the mutation sits in an unexported helper - after
+					// every call of the helper in the methods of the type
+					ok := notifiedAfter(p, fi, ev.Call)
+					if !ok && !ast.IsExported(fi.Decl.Name.Name) {
+						callers := 0
+						all := true
+						for _, cf := range methods {
+							ast.Inspect(cf.Decl.Body, func(x ast.Node) bool {
+								if c, isC := x.(*ast.CallExpr); isC {
+									if callee := p.staticCallee(cf.Pkg, c); callee != nil && callee.Key == fi.Key {
+										callers++
+										if !notifiedAfter(p, cf, c) {
+											all = false
+										}
 									}
 								}
-							}
-							return true
-						})
-						return found
-					}
-					var notes, dnotes []int
-					for _, n := range f.Nodes {
-						if n.Ast == nil {
-							continue
+								return true
+							})
 						}
-						if ds, ok := n.Ast.(*ast.DeferStmt); ok {
-							if isNotify(ds) {
-								dnotes = append(dnotes, n.ID)
-							}
-							continue
-						}
-						hasN := false
-						for _, c := range callsIn(n.Ast, false) {
-							if isNotify(c) {
-								hasN = true
-							}
-						}
-						if hasN {
-							notes = append(notes, n.ID)
-						}
-					}
-					ok := false
-					if wnode >= 0 {
-						if len(dnotes) > 0 && f.MustPrecede(setOf(dnotes), wnode) {
-							ok = true
-						}
-						if !ok && len(notes) > 0 {
-							// every path from the write to an exit passes a notification
-							ns := setOf(notes)
-							var start []int
-							for _, sid := range f.succsOf(wnode) {
-								if !ns[sid] {
-									start = append(start, sid)
-								}
-							}
-							reach := f.Reach(start, func(n *GNode) bool { return ns[n.ID] }, nil)
-							ok = true
-							for _, e := range f.Exits() {
-								if reach[e] {
-									ok = false
-								}
-							}
-						}
+						ok = callers > 0 && all
 					}
 					r.Check(ok, "C12.b", cons+"/notifies", p.pos(ev.Call), "followed by Signal/Broadcast on every path", "a change that can satisfy the waiter's predicate is not followed by Signal/Broadcast on every path")
 				}
@@ -293,6 +246,80 @@ func c12Waits(p *Prog, r *Report, conds []condInfoT) {
 		}
 	}
 	r.Floor("C12.a", "cond-wait-sites", nWait, 1)
+}
+
+// notifiedAfter reports whether every path of fi from the statement containing call to an exit passes a
+// sync.Cond Signal/Broadcast (or such a call was deferred before the statement).
+func notifiedAfter(p *Prog, fi *FuncInfo, call *ast.CallExpr) bool {
+	info := fi.Pkg.TypesInfo
+	f := p.FlatOf(fi)
+	var wnode int = -1
+	for _, n := range f.Nodes {
+		if n.Ast != nil && n.Ast.Pos() <= call.Pos() && call.End() <= n.Ast.End() {
+			if _, isDefer := n.Ast.(*ast.DeferStmt); !isDefer {
+				wnode = n.ID
+			}
+		}
+	}
+	isNotify := func(x ast.Node) bool {
+		found := false
+		ast.Inspect(x, func(y ast.Node) bool {
+			if c, ok := y.(*ast.CallExpr); ok {
+				if s, ok := c.Fun.(*ast.SelectorExpr); ok && (s.Sel.Name == "Signal" || s.Sel.Name == "Broadcast") {
+					if fn, ok := info.Uses[s.Sel].(*types.Func); ok && strings.HasPrefix(fkey(fn), "(*sync.Cond).") {
+						found = true
+					}
+				}
+			}
+			return true
+		})
+		return found
+	}
+	var notes, dnotes []int
+	for _, n := range f.Nodes {
+		if n.Ast == nil {
+			continue
+		}
+		if ds, ok := n.Ast.(*ast.DeferStmt); ok {
+			if isNotify(ds) {
+				dnotes = append(dnotes, n.ID)
+			}
+			continue
+		}
+		hasN := false
+		for _, c := range callsIn(n.Ast, false) {
+			if isNotify(c) {
+				hasN = true
+			}
+		}
+		if hasN {
+			notes = append(notes, n.ID)
+		}
+	}
+	if wnode < 0 {
+		return false
+	}
+	if len(dnotes) > 0 && f.MustPrecede(setOf(dnotes), wnode) {
+		return true
+	}
+	if len(notes) == 0 {
+		return false
+	}
+	// every path from the write to an exit passes a notification
+	ns := setOf(notes)
+	var start []int
+	for _, sid := range f.succsOf(wnode) {
+		if !ns[sid] {
+			start = append(start, sid)
+		}
+	}
+	reach := f.Reach(start, func(n *GNode) bool { return ns[n.ID] }, nil)
+	for _, e := range f.Exits() {
+		if reach[e] {
+			return false
+		}
+	}
+	return true
 }
 
 func c12WaitGroup(p *Prog, r *Report) {
